@@ -21,7 +21,7 @@ func init() {
 	core.Register(&core.Check{
 		ID:    "C05",
 		Level: "exploration",
-		Rule: "a valid generated base program (effects at the very start and in every block, functions, an event handler, graphics calls) plus exactly one rule-breaking edit from a catalogue of 25 edit kinds (undeclared/unused variable, redeclaration incl. parameters, loop variables, built-in globals and function names, type mismatches, argument counts, missing return at the end and in a single branch of an if/else-if/else chain, unreachable code, break outside a loop, return value in a procedure/handler/top level, bare return in a function, unknown function, stray tokens after statements and after every kind of end, two statements on one line, non-bool condition), applied at every line where the rule applies; each case runs in-process through Evaluator.Run with the recording platform and, sampled, through the real `evy run` (with and without --svg-out). distinct = distinct (edit kind, line kind, error message shape)",
+		Rule: "a valid generated base program (effects at the very start and in every block, functions, an event handler, graphics calls) plus exactly one rule-breaking edit from a catalogue of 26 edit kinds (undeclared/unused variable, variable of a sibling if-branch, redeclaration incl. parameters, loop variables, built-in globals and function names, type mismatches, argument counts, missing return at the end and in a single branch of an if/else-if/else chain, unreachable code, break outside a loop, return value in a procedure/handler/top level, bare return in a function, unknown function, stray tokens after statements and after every kind of end, two statements on one line, non-bool condition), applied at every line where the rule applies; each case runs in-process through Evaluator.Run with the recording platform and, sampled, through the real `evy run` (with and without --svg-out). distinct = distinct (edit kind, line kind, error message shape)",
 		Assumptions: []string{"base programs are produced by the C10 generator (accepted by construction; a rejected base is reported as a harness failure)"},
 		NeedsEvy:    true,
 		NumCases: func(tier string) int {
@@ -209,6 +209,28 @@ func c05Edits() []c05Edit {
 				return "", false
 			}
 			return replaceLine(ls, i, ls[i].indent+"print \"no return in this branch\""), true
+		}},
+		{"sibling-branch-variable", func(ls []c05Line, i int) (string, bool) {
+			// a variable declared (and used) in one branch of an if statement does not exist in a later branch
+			if ls[i].kind != "elseif" && ls[i].kind != "else" {
+				return "", false
+			}
+			j := i - 1
+			for j >= 0 && !(ls[j].kind == "if" && ls[j].indent == ls[i].indent) {
+				j--
+			}
+			if j < 0 {
+				return "", false
+			}
+			return joinLines(ls, func(k int, l c05Line) []string {
+				switch k {
+				case j:
+					return []string{l.text, l.indent + "    sib_q := 1", l.indent + "    print sib_q"}
+				case i:
+					return []string{l.text, l.indent + "    print sib_q"}
+				}
+				return []string{l.text}
+			}), true
 		}},
 		{"unreachable-code", func(ls []c05Line, i int) (string, bool) {
 			if ls[i].kind != "return" && ls[i].kind != "break" {
